@@ -288,7 +288,49 @@ class BoundedPipelineUnit:
         return [o], info
 
 
+def pipeline_units(world):
+    """CTParsePipeline.fit / predict_log_proba: the composition contract, for a pipeline in ANY state (fresh or fitted
+    before): fit = estimator.fit(transformer.fit_transform(X), y) and returns the pipeline itself; predict =
+    estimator.predict_log_probability(transformer.transform(X)).  Transformer and estimator are stubs that record calls."""
+    from pyvc.values import Obj, Tok, Builtin, ModVal
+
+    def mk(meth, fitted):
+        def setup(it, w):
+            return [{"calls": []}]
+
+        def call(it, w, a):
+            seen = a[0]
+            rec = lambda name, res: Builtin(name, lambda it2, args, k, _n=name, _r=res: (seen["calls"].append((_n, list(args))), _r)[1])
+            est2 = Tok("estimator.fitted")
+            tr = Obj(w.classes["CountVectorizer"], fresh=False, label="transformer")
+            tr.attrs.update({"vocabulary": ({"a": 0} if fitted else None), "ngram_range": (1, 3),
+                             "fit_transform": rec("fit_transform", Tok("Xt.fit")), "transform": rec("transform", Tok("Xt")),
+                             "fit": rec("transformer.fit", tr)})
+            est = Obj(w.classes["MultinomialNaiveBayes"], fresh=False, label="estimator")
+            est.attrs.update({"fit": rec("estimator.fit", est2), "predict_log_probability": rec("predict_log_probability", Tok("scores"))})
+            pipe = Obj(w.classes["CTParsePipeline"], fresh=False, label="pipeline")
+            pipe.attrs.update({"transformer": tr, "estimator": est})
+            seen.update({"pipe": pipe, "X": Tok("X"), "y": Tok("y"), "est2": est2})
+            args = [seen["X"], seen["y"]] if meth == "fit" else [seen["X"]]
+            return it.call(it.getattr_(pipe, meth), args, {})
+
+        def ens(it, w, a, r):
+            seen = a[0]
+            calls = seen["calls"]
+            if meth == "fit":
+                ok = [c[0] for c in calls] == ["fit_transform", "estimator.fit"] and calls[0][1] == [seen["X"]] \
+                    and len(calls[1][1]) == 2 and getattr(calls[1][1][0], "name", None) == "Xt.fit" and calls[1][1][1] is seen["y"]
+                return [("vocabulary-rebuilt-from-the-given-corpus-then-estimator-fitted-on-its-counts", ["C16", "C17"], bool(ok)),
+                        ("keeps-the-fitted-estimator-and-returns-itself", ["C16"], r is seen["pipe"] and seen["pipe"].attrs.get("estimator") is seen["est2"])]
+            ok = [c[0] for c in calls] == ["transform", "predict_log_probability"] and calls[0][1] == [seen["X"]] \
+                and len(calls[1][1]) == 1 and getattr(calls[1][1][0], "name", None) == "Xt"
+            return [("scores-are-the-estimator-on-the-transformed-documents", ["C16", "C14"], bool(ok) and getattr(r, "name", None) == "scores")]
+        return FuncUnit("pipeline.CTParsePipeline.%s[%s]" % (meth, "fitted before" if fitted else "fresh"), ["pipeline.CTParsePipeline.%s" % meth],
+                        ["C16", "C17", "C14"], setup, call, ens, check_frame=False, prop_map={"safety": ["C16"]})
+    return [mk("fit", False), mk("fit", True), mk("predict_log_proba", True)]
+
+
 def units(world):
-    return [BoundedPipelineUnit()] + scorer_units(world) + estimator_units(world) + [
+    return pipeline_units(world) + [BoundedPipelineUnit()] + scorer_units(world) + estimator_units(world) + [
         LemmaUnit("spec.nb.algebra", ["C16", "C09", "C14"], nb_lemmas(world)),
         LemmaUnit("spec.nb.duplication", ["C17"], duplication_lemmas(world))]
